@@ -274,45 +274,70 @@ theorem getAbsPath_some_iff (fs : FS) (src : Option Bytes) (rel a r : Bytes) :
 
 /-! ### the canonicalised-or-normalised absolute path is clean -/
 
-theorem walk_real (fs : FS) (segs : List Bytes) (hs : ∀ s ∈ segs, 47 ∉ s) (cur : List Bytes)
-    (k : Kind) (hcur : ∀ n ∈ cur, RealName n) (r : List Bytes × Kind)
-    (h : walk fs cur k segs = some r) : ∀ n ∈ r.1, RealName n := by
-  induction segs generalizing cur k with
-  | nil => simp [walk] at h; subst h; exact hcur
-  | cons seg segs ih =>
-    have hs' : ∀ s ∈ segs, 47 ∉ s := fun s h' => hs s (List.mem_cons_of_mem _ h')
-    cases k with
-    | file => simp [walk] at h
-    | dir =>
-      simp only [walk] at h
-      split at h
-      · exact ih hs' cur _ hcur h
-      · rename_i hskip
+theorem walk_real (fs : FS) (n lf : Nat) (segs : List Bytes) (hs : ∀ s ∈ segs, 47 ∉ s)
+    (cur : List Bytes) (k : Kind) (hcur : ∀ x ∈ cur, RealName x) (r : List Bytes × Kind)
+    (h : walk fs n lf cur k segs = some r) : ∀ x ∈ r.1, RealName x := by
+  induction n generalizing lf segs cur k with
+  | zero =>
+    cases segs with
+    | nil => simp [walk] at h; subst h; exact hcur
+    | cons seg segs => simp [walk] at h
+  | succ n ih =>
+    cases segs with
+    | nil => simp [walk] at h; subst h; exact hcur
+    | cons seg segs =>
+      have hs' : ∀ s ∈ segs, 47 ∉ s := fun s h' => hs s (List.mem_cons_of_mem _ h')
+      cases k with
+      | file => simp [walk] at h
+      | dir =>
+        simp only [walk] at h
         split at h
-        · exact ih hs' _ _ (fun n hn => hcur n (List.dropLast_subset _ hn)) h
-        · rename_i hdd
-          cases hk : fs.kind (cur ++ [seg]) with
-          | none => simp [hk] at h
-          | some k' =>
-            simp only [hk] at h
-            refine ih hs' _ _ ?_ h
-            intro n hn
-            rcases List.mem_append.1 hn with hn | hn
-            · exact hcur n hn
-            · simp at hn; subst hn
-              simp only [Bool.or_eq_true, decide_eq_true_eq, not_or] at hskip
-              exact ⟨hskip.1, hs n (by simp), hskip.2, hdd⟩
+        · exact ih lf segs hs' cur _ hcur h
+        · rename_i hskip
+          split at h
+          · exact ih lf segs hs' _ _ (fun x hx => hcur x (List.dropLast_subset _ hx)) h
+          · rename_i hdd
+            cases hl : fs.linkAt (cur ++ [seg]) with
+            | some t =>
+              simp only [hl] at h
+              split at h
+              · cases h
+              · cases lf with
+                | zero => simp at h
+                | succ lf' =>
+                  simp only at h
+                  refine ih lf' _ ?_ _ _ ?_ h
+                  · intro s hs2
+                    rcases List.mem_append.1 hs2 with hs2 | hs2
+                    · exact mem_split_noSlash hs2
+                    · exact hs' s hs2
+                  · split
+                    · simp
+                    · exact hcur
+            | none =>
+              simp only [hl] at h
+              cases hk : fs.kind (cur ++ [seg]) with
+              | none => simp [hk] at h
+              | some k' =>
+                simp only [hk] at h
+                refine ih lf segs hs' _ _ ?_ h
+                intro x hx
+                rcases List.mem_append.1 hx with hx | hx
+                · exact hcur x hx
+                · simp at hx; subst hx
+                  simp only [Bool.or_eq_true, decide_eq_true_eq, not_or] at hskip
+                  exact ⟨hskip.1, hs x (by simp), hskip.2, hdd⟩
 
 theorem realpath_clean_of_abs {fs : FS} {p c : Bytes} (hp : hasRoot p = true)
     (h : fs.realpath p = some c) : ∃ names, (∀ n ∈ names, RealName n) ∧ c = render ⟨true, names⟩ := by
   unfold FS.realpath FS.resolve at h
   have hne : p ≠ [] := by intro e; subst e; simp [hasRoot] at hp
   simp only [hne, if_false, hp, if_true] at h
-  cases hw : walk fs [] Kind.dir (split p) with
+  cases hw : walk fs (fs.fuel (split p)) maxLinks [] Kind.dir (split p) with
   | none => simp [hw] at h
   | some r =>
     simp [hw] at h
-    exact ⟨r.1, walk_real fs _ (fun s hs => mem_split_noSlash hs) [] _ (by simp) r hw, h.symm⟩
+    exact ⟨r.1, walk_real fs _ _ _ (fun s hs => mem_split_noSlash hs) [] _ (by simp) r hw, h.symm⟩
 
 theorem hasRoot_push {a : Bytes} (ha : hasRoot a = true) (b : Bytes) : hasRoot (push a b) = true := by
   unfold push
